@@ -26,6 +26,14 @@ structure Quirks where
   dimacsSingleClause : Bool := false
   /-- `to_bqm`: `_ret = <symbol>` takes the `AndConst` branch -/
   retSymbolAndConst : Bool := false
+  /-- `Grover.__init__` adds `_ret_phased` and an MCZ to the oracle's own circuit object -/
+  groverMutatesOracle : Bool := false
+  /-- `oraclize` assigns `qf.name = "_oracle"` to its argument when it is called `oracle` -/
+  oraclizeRenames : Bool := false
+  /-- `QlassF.from_function`: `exec(f, globals())` writes into the module `qlasskit.qlassfun` -/
+  execIntoModuleGlobals : Bool := false
+  /-- `QlassF.from_function`: `eval(name)` finds the function's own locals first -/
+  evalSeesLocals : Bool := false
   deriving Repr, DecidableEq, Inhabited
 
 def Quirks.none : Quirks := {}
@@ -39,6 +47,10 @@ def Quirks.ofList (l : List String) : Quirks :=
     repeatZero := l.contains "repeatZero"
     identityGateRaises := l.contains "identityGateRaises"
     dimacsSingleClause := l.contains "dimacsSingleClause"
-    retSymbolAndConst := l.contains "retSymbolAndConst" }
+    retSymbolAndConst := l.contains "retSymbolAndConst"
+    groverMutatesOracle := l.contains "groverMutatesOracle"
+    oraclizeRenames := l.contains "oraclizeRenames"
+    execIntoModuleGlobals := l.contains "execIntoModuleGlobals"
+    evalSeesLocals := l.contains "evalSeesLocals" }
 
 end QV
